@@ -345,6 +345,7 @@ def overlap_schedules(tier):
     for hold in ("n:STOP-bounded",):
         sch.append({"overlap": True, "hold": hold, "cmd": "start", "issuer": "helper", "cmd_hold": "STARTING"})
         sch.append({"overlap": True, "hold": hold, "cmd": "rut", "issuer": "helper", "cmd_hold": "STARTING"})
+    rapid = [{"overlap": True, "rapid": 4 if tier == "quick" else 12, "starter": st_} for st_ in ("start", "rut")]
     if tier == "quick":
         keep = []
         for s in sch:
@@ -358,10 +359,12 @@ def overlap_schedules(tier):
                                ("n:STOP-end", "stop", "helper", None), ("n:END_REPLICATION", "start", "helper", None)}:
                 keep.append(s)
         sch = keep
-    return sch
+    return sch + rapid
 
 
 def sched_id(c):
+    if "rapid" in c:
+        return "rapid/%s/%d" % (c["starter"], c["rapid"])
     return "%s/%s/%s/%s" % (c["hold"], c["cmd"], c["issuer"], c["cmd_hold"] or "-")
 
 
@@ -457,8 +460,76 @@ def grammar(out, log, warm_hex, sid):
         i += 1
 
 
+RAPID_PROG = {"clock": "float", "cap": 10 ** 9, "rep": {"start": fx(0.0), "warmup": fx(0.0), "length": fx(1e15)},
+              "root": [["rel", fx(1.0), 0, 5]], "nodes": [[["rel", fx(1.0), 0, 5]]]}
+
+
+def run_rapid(c):
+    """rapid start/stop alternation within one replication: every accepted stop() must actually stop the run"""
+    from pydsol.core.utils import DSOLError
+    out = Outcome()
+    sid = sched_id(c)
+    out.label("overlap", "rapid-alternation")
+    out.nontrivial = True
+    h = Harness(RAPID_PROG)
+    sim = h.sim
+    try:
+        h.initialize()
+        rec = h.rec
+        last_clock = None
+        for i in range(c["rapid"]):
+            try:
+                if c["starter"] == "start":
+                    sim.start()
+                else:
+                    sim.run_up_to(1e14)
+            except DSOLError as e:
+                out.fail("rapid-start-refused:" + sid, {"round": i, "err": repr(e), "state": sim.run_state.name})
+                break
+            err = None
+            try:
+                sim.stop()
+            except DSOLError as e:
+                err = e
+            # (stop may legitimately be refused only if the run is not running any more - it cannot end here)
+            if err is not None:
+                out.fail("rapid-stop-refused:" + sid, {"round": i, "err": repr(err), "state": sim.run_state.name})
+                break
+            st_ = h.settle(timeout=5.0, allow_limbo=True) if sim.run_state.name in ("STOPPED", "STOPPING") else "busy"
+            if sim.run_state.name != "STOPPED" or st_ != "quiet":
+                out.fail("rapid-stop-ineffective:" + sid, {"round": i, "state": sim.run_state.name, "status": st_})
+                break
+            c1 = sim.simulator_time
+            deadline = _time.monotonic() + 0.003
+            while _time.monotonic() < deadline:
+                pass
+            if sim.simulator_time != c1 or sim.run_state.name != "STOPPED":
+                out.fail("rapid-runs-on-after-stop:" + sid, {"round": i, "clock": [c1, sim.simulator_time]})
+                break
+            if last_clock is not None and c1 < last_clock:
+                out.fail("rapid-clock-decreased:" + sid, [last_clock, c1])
+            last_clock = c1
+        if not out.disc:
+            names = [e[0] for e in rec.log if e[0] in ("START", "STOP")]
+            want = ["START", "STOP"] * c["rapid"]
+            if names != want:
+                out.fail("rapid-start-stop-not-alternating:" + sid, names[:12])
+    finally:
+        try:
+            if sim.run_state.name in ("STARTED", "STARTING"):
+                sim.stop()
+        except Exception:
+            pass
+        if h.finish():
+            out.fail("overlap-thread-leak:%s" % sid, None)
+    out.info = {"schedule": sid}
+    return out
+
+
 def run_overlap(c):
     from pydsol.core.utils import DSOLError
+    if "rapid" in c:
+        return run_rapid(c)
     out = Outcome()
     sid = sched_id(c)
     out.label("overlap", "hold=" + c["hold"], "cmd=" + c["cmd"], "issuer=" + c["issuer"])
